@@ -103,11 +103,23 @@ def strategy(tier):
     return _case(tier)
 
 
+def _carrier():
+    """A small query of its own, to be entered with symbolic_mode(query) / rule_mode(query)."""
+    from entity_query_language import an, entity, let
+    v = let(CLASSES["Other"], domain=[])
+    with symbolic_mode():
+        return an(entity(v))
+
+
 def _ambient(name):
     if name == "query":
         return symbolic_mode()
     if name == "rule":
         return rule_mode()
+    if name == "query_carrying_a_query":
+        return symbolic_mode(_carrier())         # `with symbolic_mode(query):` - the block also has a current expression
+    if name == "rule_carrying_a_query":
+        return rule_mode(_carrier())             # `with rule_mode(query):` as used to add conclusions to a query
     import contextlib
     return contextlib.nullcontext()
 
@@ -124,7 +136,8 @@ def _run(case, eff, objs, ambient):
         q = built.q
     first_amb, _, rest_amb = ambient.partition(">")
     rest_amb = rest_amb or first_amb
-    modes = {"none": None, "query": EQLMode.Query, "rule": EQLMode.Rule}
+    modes = {"none": None, "query": EQLMode.Query, "rule": EQLMode.Rule, "query_carrying_a_query": EQLMode.Query,
+             "rule_carrying_a_query": EQLMode.Rule}
     mode_ok, mode_after = True, None
 
     def flags():
@@ -214,7 +227,7 @@ def check(case) -> Outcome:
             items.append((case["head"]["cls"], repr(ident(tuple(A.eval_term(t, env) for _, t in case["head"]["args"])))))
         ref = ("instances", sorted(items))
     outcomes = {}
-    ambients = ["none", "query", "rule"]
+    ambients = ["none", "query", "rule", "query_carrying_a_query", "rule_carrying_a_query"]
     if case["quant"] != "the":
         ambients += ["none>query", "none>rule", "query>none", "rule>query"]
     for ambient in ambients:
